@@ -6,6 +6,8 @@
   regenerated from service.go, orgvarlinkservice.go and ctxio/conn.go by extract/access.go on every run.
 -/
 import Varlink.Race
+import Varlink.Lifecycle
+import VarlinkProofs.Lemmas.LifecycleInv
 import VarlinkProofs.Lemmas.Race
 import VarlinkProofs.Lemmas.RaceCtxio
 import Varlink.Extracted.Code
@@ -238,6 +240,39 @@ theorem counter_system_matches_code :
     decrementLast (eventsOf serviceTable .handleConnection) = true ∧
     (serviceTable.all fun a => !(handlerFns serviceTable).contains a.fn ||
         match a.ev with | .write f => !isTable f | _ => true) = true := by decide +kernel
+
+/-! ### 3b. the same guard in the lifecycle transition system of C14 (one model, not two)
+
+  The counter system above abstracts the accept loop to five program counters. The lifecycle transition system of C14
+  (lean/Varlink/Lifecycle.lean: any number of serving calls and connections, every interleaving, faults included) has
+  the real accounting, and `accounted_once` says the counter is exactly the number of connections from `counted` to
+  `closed`. Hence the composition "lock discipline + counter guard" needs no separate argument: -/
+
+/-- **A registration that is admitted finds no handler alive**: in every reachable state of the lifecycle transition
+    system in which `RegisterInterface` is not refused (`running = false` and `conncounter ≤ 0`, read under the mutex),
+    no connection is in a phase in which its handler goroutine exists and can read an interface table (`reading`,
+    `dispatching`, `closing`, `closed` — nor already counted and about to be handed to one). So the unlocked table reads
+    of handlers never overlap the locked table writes of a registration. -/
+theorem register_admitted_no_live_handler {w : Life.World} (h : Life.Reachable w)
+    (hr : Life.registerRefused w = false) :
+    ∀ (i : Nat) (x : Life.Conn), w.conns[i]? = some x → Life.inCounter x.phase = false := by
+  intro i x hi
+  have hc : w.counter = Life.cnt Life.cntd w.conns := (Life.inv_reachable h).counterOk
+  simp only [Life.registerRefused, Bool.or_eq_false_iff, decide_eq_false_iff_not] at hr
+  have hle : w.counter ≤ 0 := by omega
+  have hnn : (0 : Int) ≤ Life.cnt Life.cntd w.conns := by unfold Life.cnt; exact Int.natCast_nonneg _
+  have hz : Life.cnt Life.cntd w.conns = 0 := by omega
+  have hcp : w.conns.countP Life.cntd = 0 := by
+    unfold Life.cnt at hz; exact_mod_cast hz
+  have hmem : x ∈ w.conns := List.mem_of_getElem? hi
+  have := List.countP_eq_zero.mp hcp x hmem
+  simpa [Life.cntd] using this
+
+/-- non-vacuity: a reachable lifecycle state after Shutdown with a connection still being served — the registration
+    is refused there although `running` is already false (the counter guard is what refuses it) -/
+example : ∃ w, Life.Reachable w ∧ w.running = false ∧ Life.registerRefused w = true :=
+  ⟨_, Life.reach_of_run [.spawn .bind false (some 0), .call 0, .spawn .doListen false none, .call 1, .call 1,
+      .clientConnect 0, .call 1, .call 1, .call 1, .shutdown] rfl, by decide, by decide⟩
 
 /-! ### 4. ctxio: the helper goroutine is joined before every return -/
 
